@@ -171,7 +171,7 @@ theorem queryPairs_text (F : FormCodec) : ∀ (fs : List (Str × Codec (List Str
     · exact queryPairs_text F fs vss (fun g hg => hk g (List.mem_cons_of_mem _ hg))
         (fun ws hws => hv ws (List.mem_cons_of_mem _ hws)) p hp
 
-theorem rt_query (F : FormCodec) (d : ReqDesc) (v : ReqVal) (q : Str)
+theorem rt_query (F : FormCodec) (hF : F.Lawful) (d : ReqDesc) (v : ReqVal) (q : Str)
     (hmacro : d.macroAccepts = true) (hnames : (d.fields.map (·.name)).Nodup)
     (hshape : v.shapeOk d = true) (hcq : CanonAll (d.queryFields.map (·.2)) v.query)
     (hcqa : CanonAll d.queryAllFields v.queryAll) (ht : v.Text F d)
@@ -203,7 +203,7 @@ theorem rt_query (F : FormCodec) (d : ReqDesc) (v : ReqVal) (q : Str)
       have hvq : v.query = [] := by
         rw [hqf] at hl2
         exact List.length_eq_zero_iff.1 hl2
-      have hlaw := F.law qa (fun p hp => ht.queryAll qa (by rw [hv]; simp) p hp)
+      have hlaw := hF.law qa (fun p hp => ht.queryAll qa (by rw [hv]; simp) p hp)
       simp only [hlaw, show c.norm qa = some qa from hcqa.1, Option.map_some, hvq]
   | nil =>
     rw [hqa] at hq hl3
@@ -221,7 +221,7 @@ theorem rt_query (F : FormCodec) (d : ReqDesc) (v : ReqVal) (q : Str)
             split at hp
             · cases hp; rfl
             · cases hp) d.fields hnames
-      have hlaw := F.law (queryPairs d.queryFields v.query)
+      have hlaw := hF.law (queryPairs d.queryFields v.query)
         (queryPairs_text F d.queryFields v.query ht.keys ht.query)
       rw [hlaw]
       have := decodeQueryFields_pairs d.queryFields v.query [] hnd (by simp) hcq
@@ -369,7 +369,7 @@ theorem rt_headers (d : ReqDesc) (v : ReqVal) (sat : SendAccessToken) (hs : Head
 
 /-! ### Body -/
 
-theorem rt_body (J : JsonCodec) (d : ReqDesc) (v : ReqVal) (body : Str)
+theorem rt_body (J : JsonCodec) (hJ : J.Lawful) (d : ReqDesc) (v : ReqVal) (body : Str)
     (hmacro : d.macroAccepts = true) (hnames : (d.fields.map (·.name)).Nodup)
     (hshape : v.shapeOk d = true) (hcb : CanonAll (d.bodyFields.map (·.2)) v.body)
     (hcn : CanonAll d.newtypeFields v.newtype) (h : requestBody J d v = .ok body) :
@@ -421,8 +421,8 @@ theorem rt_body (J : JsonCodec) (d : ReqDesc) (v : ReqVal) (body : Str)
           rw [hser] at h
           simp only [Outcome.ok.injEq] at h
           subst h
-          have hne := J.ser_ne j b hser
-          have hparse := J.law j b hser
+          have hne := hJ.ser_ne j b hser
+          have hparse := hJ.law j b hser
           unfold decodeJsonBody bodyOrEmptyObject
           simp only [hne, if_false, hparse]
           unfold requestBodyJson ReqDesc.hasNewtypeBody at hj
@@ -500,7 +500,8 @@ theorem testsPass_inv (d : ReqDesc) (h : d.testsPass = true) :
       | none => simpa using ih
       | some c => simpa using ih
 
-theorem request_roundtrip' (F : FormCodec) (J : JsonCodec) (H : HttpLib) (d : ReqDesc) (v : ReqVal)
+theorem request_roundtrip' (F : FormCodec) (hF : F.Lawful) (J : JsonCodec) (hJ : J.Lawful)
+    (H : HttpLib) (d : ReqDesc) (v : ReqVal)
     (base : Str) (sat : SendAccessToken) (vs : List Version) (m : HttpRequest)
     (hnew : newOk d.history = true)
     (hsafe : ∀ p ∈ allPaths d.history, ∀ b ∈ p, b = 47 ∨ segmentUnsafe b = false)
@@ -538,9 +539,9 @@ theorem request_roundtrip' (F : FormCodec) (J : JsonCodec) (H : HttpLib) (d : Re
         rw [hv] at hq
         simp only [List.head?_cons, Option.map_some, Option.some.injEq] at hq
         subst hq
-        exact F.no_hash qa
+        exact hF.no_hash qa
     · split at hq
-      · cases hq; exact F.no_hash _
+      · cases hq; exact hF.no_hash _
       · cases hq; simp
   refine ⟨tmpl, ⟨d.method, q, hs, body, v.path⟩, hsel, ?_, ?_⟩
   · rw [hm, hurl]
@@ -549,11 +550,11 @@ theorem request_roundtrip' (F : FormCodec) (J : JsonCodec) (H : HttpLib) (d : Re
     simp only [decide_true, Bool.true_or, Bool.not_true, Bool.false_eq_true, if_false]
     rw [rt_path d v hl1 hcanon.path]
     simp only
-    rw [rt_query F d v q hmacro hnames hshape hcanon.query hcanon.queryAll htext hq]
+    rw [rt_query F hF d v q hmacro hnames hshape hcanon.query hcanon.queryAll htext hq]
     simp only
     rw [rt_headers d v sat hs hhn hl4 hcanon.header hvis himp hh]
     simp only
-    obtain ⟨hb1, hb2⟩ := rt_body J d v body hmacro hnames hshape hcanon.body hcanon.newtype hb
+    obtain ⟨hb1, hb2⟩ := rt_body J hJ d v body hmacro hnames hshape hcanon.body hcanon.newtype hb
     rw [hb1]
     simp only
     rw [hb2]
